@@ -722,6 +722,20 @@ class Interp:
             self.setattr(self.eval(t.value, fr), t.attr, v)
         elif isinstance(t, ast.Subscript):
             self.setitem(self.eval(t.value, fr), self.eval_index(t.slice, fr), v)
+        elif isinstance(t, (ast.Tuple, ast.List)) and isinstance(v, Sym) and hasattr(v, "unpack"):
+            star = [i for i, e in enumerate(t.elts) if isinstance(e, ast.Starred)]
+            if star:
+                i = star[0]
+                first, mid, last = v.unpack(self, i, len(t.elts) - i - 1, True)
+                for e, x in zip(t.elts[:i], first):
+                    self.assign(e, x, fr)
+                self.assign(t.elts[i].value, mid, fr)
+                for e, x in zip(t.elts[i + 1:], last):
+                    self.assign(e, x, fr)
+            else:
+                first, _, _ = v.unpack(self, len(t.elts), 0, False)
+                for e, x in zip(t.elts, first):
+                    self.assign(e, x, fr)
         elif isinstance(t, (ast.Tuple, ast.List)):
             items = self.iterate(v)
             star = [i for i, e in enumerate(t.elts) if isinstance(e, ast.Starred)]
@@ -811,11 +825,22 @@ class Interp:
                     parts.append(self.to_str(x))
         if all(isinstance(p, str) for p in parts):
             return "".join(parts)
+        if getattr(self.e, "rope_mode", False):
+            from .rope import Rope
+            out = Rope([])
+            for p in parts:
+                out = out.binop(self, "+", Rope.of(p, self), False)
+            return out
         return lift(z3.Concat(*[to_z3(p) for p in parts])) if len(parts) > 1 else parts[0]
 
     def to_str(self, x):
         if isinstance(x, SStr):
             return x
+        if isinstance(x, Sym) and hasattr(x, "to_str"):
+            return x.to_str(self)
+        if isinstance(x, SInt) and getattr(self.e, "rope_mode", False):
+            from .rope import Rope
+            return Rope.dec(self, x)
         if isinstance(x, SInt):
             # str(int) for symbolic ints: int.to.str only covers non-negatives
             return SStr(z3.If(x.t >= 0, z3.IntToStr(x.t), z3.Concat(z3.StringVal("-"), z3.IntToStr(-x.t))))
@@ -1021,6 +1046,9 @@ class Interp:
         if isinstance(l, (SInt, SBool)) or isinstance(r, (SInt, SBool)):
             if _intlike(l) and _intlike(r):
                 return self.int_binop(op, l, r)
+        if op == "*" and getattr(self.e, "rope_mode", False) and ((isinstance(l, str) and isinstance(r, SInt)) or (isinstance(r, str) and isinstance(l, SInt))):
+            from .rope import Rope
+            return Rope.rep(self, l, r) if isinstance(l, str) else Rope.rep(self, r, l)
         if isinstance(l, SStr) or isinstance(r, SStr):
             if op == "+" and _strlike(l) and _strlike(r):
                 return lift(z3.Concat(to_z3(l), to_z3(r)))
@@ -1066,6 +1094,16 @@ class Interp:
             raise Unsupported(f"binary {op} on {l!r}, {r!r}")
         if isinstance(l, dict) and isinstance(r, dict) and op == "|":
             return {**l, **r}
+        if op == "+" and type(l) is list and type(r) is list:
+            if inplace:
+                l.extend(r)          # `xs += ys` mutates xs (aliases see it)
+                return l
+            return l + r
+        if op == "+" and type(l) is list and inplace and type(r) is tuple:
+            l.extend(r)
+            return l
+        if op == "+" and type(l) is tuple and type(r) is tuple:
+            return l + r
         if not (_plain(l) and _plain(r)):
             raise Unsupported(f"binary {op} on {l!r}, {r!r}")
         try:
@@ -1330,7 +1368,28 @@ class Interp:
         raise Unsupported(f"iteration over {v!r}")
 
     # ------------------------------------------------------------------ comprehensions
+    def _uniform_comp(self, n, fr, lazy):
+        """`[elt for x in src]` over a value with a `map_comp` hook (no filters, one generator)."""
+        if len(n.generators) != 1 or n.generators[0].ifs or n.generators[0].is_async:
+            return None
+        g = n.generators[0]
+        if not isinstance(g.iter, (ast.Name, ast.Attribute, ast.Subscript)):
+            return None
+        src = self.eval(g.iter, fr)
+        if not (isinstance(src, Sym) and hasattr(src, "map_comp")):
+            return None
+
+        def fn(x):
+            inner = Frame(fr.module, fr.func, fr)
+            inner.globals_decl = fr.globals_decl
+            self.assign(g.target, x, inner)
+            return self.eval(n.elt, inner)
+        return src.map_comp(self, fn, lazy)
+
     def e_ListComp(self, n, fr):
+        u = self._uniform_comp(n, fr, False)
+        if u is not None:
+            return u
         from .symcoll import try_symbolic_listcomp
         r = try_symbolic_listcomp(self, n, fr)
         if r is not None and r[0] == "sym":
@@ -1345,6 +1404,9 @@ class Interp:
         return set(self.hashable(x) for x in out)
 
     def e_GeneratorExp(self, n, fr):
+        u = self._uniform_comp(n, fr, True)
+        if u is not None:
+            return u
         from .symcoll import try_symbolic_genexp
         sg = try_symbolic_genexp(self, n, fr)
         if sg is not None:
